@@ -484,6 +484,125 @@ struct AssertOperands : Monitor {
   }
 };
 
+// Reference model of control dependence (Ferrante/Ottenstein/Warren through
+// post-dominators) on the SimIR graph, for the data+control mode of the crawler:
+// cd[P] = blocks that are control dependent on P. Only defined (ok = true) when the
+// function has an exit block that every block reachable from the entry can reach.
+struct RefCdg {
+  bool ok = false;
+  std::map<std::string, std::set<std::string>> cd;
+  // is A reachable in the control-dependence graph from some block that is control
+  // dependent on P (the crawler's test when it crosses an assume whose block has
+  // predecessor P)?
+  bool depends(const std::string &P, const std::string &A) const {
+    auto it = cd.find(P);
+    if (it == cd.end())
+      return false;
+    std::set<std::string> seen;
+    std::vector<std::string> work(it->second.begin(), it->second.end());
+    while (!work.empty()) {
+      std::string x = work.back();
+      work.pop_back();
+      if (x == A)
+        return true;
+      if (!seen.insert(x).second)
+        continue;
+      auto jt = cd.find(x);
+      if (jt != cd.end())
+        for (auto &y : jt->second)
+          work.push_back(y);
+    }
+    return false;
+  }
+};
+RefCdg reference_cdg(const Function &f) {
+  RefCdg r;
+  if (f.exit.empty() || f.blocks.empty())
+    return r;
+  std::map<std::string, std::vector<std::string>> succ;
+  std::set<std::string> all;
+  for (auto &b : f.blocks) {
+    all.insert(b.label);
+    succ[b.label] = b.succs;
+  }
+  // blocks reachable from the entry
+  std::set<std::string> reach;
+  std::vector<std::string> work = {f.blocks[0].label};
+  while (!work.empty()) {
+    std::string x = work.back();
+    work.pop_back();
+    if (!reach.insert(x).second)
+      continue;
+    for (auto &y : succ[x])
+      work.push_back(y);
+  }
+  // every block (reachable or not: crab computes post-dominance on the whole graph)
+  // must reach the exit, otherwise definitions of post-dominance differ
+  for (auto &n : all) {
+    std::set<std::string> seen;
+    std::vector<std::string> w = {n};
+    bool hit = false;
+    while (!w.empty() && !hit) {
+      std::string x = w.back();
+      w.pop_back();
+      if (x == f.exit)
+        hit = true;
+      if (!seen.insert(x).second)
+        continue;
+      for (auto &y : succ[x])
+        w.push_back(y);
+    }
+    if (!hit)
+      return r;
+  }
+  if (!succ[f.exit].empty())
+    return r; // an exit block with successors: keep to the textbook setting
+  // post-dominators: pdom(exit) = {exit}; pdom(n) = {n} + intersection over successors
+  std::map<std::string, std::set<std::string>> pdom;
+  for (auto &n : all)
+    pdom[n] = (n == f.exit) ? std::set<std::string>{n} : all;
+  bool changed = true;
+  while (changed) {
+    changed = false;
+    for (auto &n : all) {
+      if (n == f.exit)
+        continue;
+      std::set<std::string> acc;
+      bool first = true;
+      for (auto &sx : succ[n]) {
+        if (first) {
+          acc = pdom[sx];
+          first = false;
+        } else {
+          std::set<std::string> t;
+          for (auto &x : acc)
+            if (pdom[sx].count(x))
+              t.insert(x);
+          acc = t;
+        }
+      }
+      acc.insert(n);
+      if (acc != pdom[n]) {
+        pdom[n] = acc;
+        changed = true;
+      }
+    }
+  }
+  // A is control dependent on P iff A post-dominates some successor of P and A does
+  // not strictly post-dominate P
+  for (auto &P : all)
+    for (auto &sx : succ[P])
+      for (auto &A : pdom[sx])
+        // (crab's frontier computation never makes a block control dependent on
+        // itself - `runner != n` in dominance.hpp -, so a loop head is not; the
+        // property only demands data dependences, the reference follows crab here)
+        if (A != P && !pdom[P].count(A))
+          r.cd[P].insert(A);
+  r.ok = true;
+  (void)reach;
+  return r;
+}
+
 Outcome check_c18(const Case &c, Stats &st) {
   Outcome out;
   apply_knobs(c);
@@ -504,6 +623,9 @@ Outcome check_c18(const Case &c, Stats &st) {
     st.inc("refused");
     return out;
   }
+  RefCdg refcdg = liveness_mode ? RefCdg() : reference_cdg(c.prog.funcs[0]);
+  if (refcdg.ok)
+    st.inc("reference_cdg_defined");
   CrabFunction &fn = cp->funcs[0];
   st.inc(liveness_mode ? "mode_liveness" : "mode_crawler");
   auto fail = [&](const std::string &monitor, const std::string &item, const std::string &where,
@@ -710,6 +832,85 @@ Outcome check_c18(const Case &c, Stats &st) {
         continue;
       st.inc("fault_f2_non_dependence_corruption");
       auto a1 = mon1.vals.find(target), a2 = mon2.vals.find(target);
+      if (!c.pbool("only_data") && refcdg.ok &&
+          (a2 == mon2.vals.end() || mon2.path_at[target] != mon1.path_at[target])) {
+        // ---- control half (data+control mode): the corrupted run follows the same block
+        // path until an `assume` that held in the original run fails. If the block of the
+        // assertion is (transitively) control dependent on the predecessor through which
+        // that assume's block was entered, the crawler adds the assume's variables to the
+        // assertion's set there, so the victim must have been listed at b.
+        // align: m2 has one extra FAULT event; compare m1[i] with m2[i + shift]
+        size_t i1 = 0, i2 = 0;
+        bool diverged = false;
+        while (i1 < m1.events.size() && i2 < m2.events.size()) {
+          if (m2.events[i2].k == Event::FAULT) {
+            i2++;
+            continue;
+          }
+          const Event &e1 = m1.events[i1], &e2 = m2.events[i2];
+          if (e1.k == e2.k && e1.a == e2.a && e1.id == e2.id && e1.outcome == e2.outcome) {
+            i1++;
+            i2++;
+            continue;
+          }
+          diverged = true;
+          break;
+        }
+        if (diverged) {
+          const Event &e1 = m1.events[i1], &e2 = m2.events[i2];
+          if (e1.k == Event::COND && e2.k == Event::COND && e1.a == e2.a && e1.id == e2.id &&
+              e1.outcome && !e2.outcome) {
+            // the statement must be a numeric assume of the outermost function
+            block_t &sb = fn.cfg->get_node(e1.a);
+            int si = 0;
+            bool is_num_assume = false;
+            for (auto &stmt : sb) {
+              if (si == (int)e1.id)
+                is_num_assume = stmt.is_assume();
+              si++;
+            }
+            // position of that block on the path, and its predecessor on the path
+            size_t blocks_before = 0;
+            int depth = 0;
+            for (size_t q = 0; q < i1; q++) {
+              if (m1.events[q].k == Event::CALL)
+                depth++;
+              if (m1.events[q].k == Event::RET)
+                depth--;
+              if (m1.events[q].k == Event::BLOCK && depth == 0)
+                blocks_before++;
+            }
+            // block of the assertion instance
+            std::string ablock;
+            {
+              const std::string &pa = mon1.path_at[target]; // "b0>b1>...>bA>"
+              size_t e = pa.size() ? pa.size() - 1 : 0;
+              size_t sidx = pa.rfind('>', e ? e - 1 : 0);
+              ablock = pa.substr(sidx == std::string::npos ? 0 : sidx + 1,
+                                 e - (sidx == std::string::npos ? 0 : sidx + 1));
+            }
+            if (is_num_assume && depth == 0 && blocks_before >= 2 && blocks_before - 1 >= bi &&
+                path[blocks_before - 1] == e1.a) {
+              const std::string &P = path[blocks_before - 2];
+              st.inc("f2_control_candidates");
+              if (refcdg.depends(P, ablock)) {
+                st.inc("f2_control_judged");
+                fail("assertion_control_dependence_missing", "data+control",
+                     fn.src->name + ":" + b,
+                     "variable " + victim + " is not listed for assertion id=" +
+                         std::to_string(target.first) + " (block " + ablock + ") at the entry of " +
+                         b + ", but changing it there makes the assume #" +
+                         std::to_string(e1.id) + " of block " + e1.a + " (entered from " + P +
+                         ") fail, and " + ablock + " is control dependent on " + P +
+                         " (reference control-dependence graph)");
+                out.trace = "--- original\n" + trace_of(m1) + "--- corrupted\n" + trace_of(m2);
+              }
+            }
+          }
+        }
+        if (out.violated)
+          break;
+      }
       if (a2 == mon2.vals.end() || mon2.path_at[target] != mon1.path_at[target])
         continue; // not reached on the same path: no verdict
       st.inc("f2_same_instance_reached");
